@@ -113,6 +113,18 @@ def gen_cases(ctx: Ctx):
                     t = [f"dc{i}.example.com", f"DC{i}.Corp.Example.COM", f"dc{i}.EXAMPLE.com"][(i + k // 3) % 3] + ["", ".", ".."][(i + k) % 3]
                     answers.append([t, 389 + i, w, pr])
                 cases.append([k % 2, domains[k % 4], answers])
+    # the same host answered more than once (identical, or differing only in case / trailing dot) with different
+    # priority and weight: every record is a candidate on its own
+    hosts = ["dc.example.com", "dc.example.com.", "DC.Example.COM", "DC.EXAMPLE.COM.", "other.example.com"]
+    for n in (2, 3):
+        for hs in itertools.product(range(len(hosts)), repeat=n):
+            if len({hosts[h].rstrip(".").lower() for h in hs}) == n:
+                continue
+            for j, ms in enumerate(itertools.product([(0, 0), (0, 2), (1, 1), (2, 0)], repeat=n)):
+                if len(set(ms)) < 2 or (not ctx.thorough and (j + sum(hs)) % (3 if n == 2 else 17)):
+                    continue
+                k += 1
+                cases.append([k % 2, domains[k % 4], [[hosts[h], 389 + i, w, pr] for i, (h, (pr, w)) in enumerate(zip(hs, ms))]])
     # big values, negative weights are not valid SRV but exercise the key
     cases.append([0, "x", [["a.", 1, 65535, 65535], ["b.", 2, 0, 0], ["c", 3, 65535, 0]]])
     cases.append([1, "x", [["...", 1, 1, 1]]])
